@@ -198,6 +198,32 @@ def run(ctx):
     for vn, payload, want_kinds in (("Integer", [printtables.Tok("n")], ["display"]), ("Rational", [printtables.Tok("n"), printtables.Tok("d")], ["display", "display"]),
                                     ("Real", [printtables.Tok("r")], ["debug"])):
         t = printtables.print_value(fb, m_.number(vn, *payload))
+        if isinstance(t, tuple) and vn == "Real":
+            # the printer tests the real against constants of its type (special spellings for infinities / NaN): explore the tests
+            import math
+            paths = printtables.real_print_paths(fb)
+            stuck = [p_ for p_ in paths if "stuck" in p_]
+            if stuck or not paths:
+                ctx.undecided("C16-number-alphabet", vn, "cannot follow the printer on a Real (%s)" % (stuck[0]["stuck"] if stuck else t[1]), where_of(nf))
+                continue
+            bad_r = None
+            for cname, x in printtables.REAL_CLASSES:
+                hit = [p_ for p_ in paths if all(printtables.real_holds(c_, x) for c_ in p_["conds"])]
+                finite = not (math.isnan(x) or math.isinf(x))
+                for p_ in hit[:1]:
+                    tx = p_["text"]
+                    hs = [q for q in (tx.parts if not isinstance(tx, str) else []) if not isinstance(q, str)]
+                    lit = "".join(q for q in (tx.parts if not isinstance(tx, str) else [tx]) if isinstance(q, str))
+                    if finite and not ([h.kind for h in hs] == ["debug"] and lit == "") and bad_r is None:
+                        bad_r = "%s is printed as %r (tests taken: %s), expected its own digits (the real type's Debug form) and nothing else" % (
+                            cname, lit if not hs else tx, [(c_[0], c_[1], c_[2], c_[3]) for c_ in p_["conds"]])
+                if finite and not hit and bad_r is None:
+                    bad_r = "%s: no path of the printer accepts it" % cname
+            ctx.inst("C16-number-alphabet", vn, {"paths": len(paths), "value_classes": len(printtables.REAL_CLASSES)})
+            ctx.oblige(bad_r is None)
+            if bad_r:
+                ctx.report("C16-number-alphabet", "Real/value-classes", "a finite real does not print as itself: " + bad_r, where_of(nf))
+            continue
         if isinstance(t, tuple):
             ctx.undecided("C16-number-alphabet", vn, "cannot follow the printer on a %s (%s)" % (vn, t[1]), where_of(nf))
             continue
